@@ -242,7 +242,8 @@ def _worker_chunk(mname: str, seed: int, tier: str, indices, want_digests: bool)
                         "sample": r["sample"],
                     }
                 )
-            if want_digests:
+            if want_digests and r["status"] != "inconclusive":
+                # (a run cut by the CPU-time guard is cut at a load-dependent instant: it has no digest to compare)
                 agg["digests"][i] = r["digest"]
     finally:
         sys.stderr = old_err
@@ -536,7 +537,7 @@ def run_check(prop: str, machines: list[str], tier: str, seed: int, out=sys.stdo
     nondeterministic = []
     for name, pm in per_machine.items():
         for i, d in pm["digests2"].items():
-            if i in pm["digests"] and pm["digests"][i] != d:
+            if i in pm["digests"] and pm["digests"][i] != d:  # (both executions conclusive)
                 nondeterministic.append((name, i))
 
     # classify violations
